@@ -22,16 +22,16 @@ MT = ["Cat", "Last", "Sum", "Boom"]
 
 def run(rep, work, tier, seed):
     if tier == "quick":
-        mc = dict(NTasks=2, N=3, MaxOps=7, MaxRec=3, MaxT=0, MTypes=["Cat", "Boom"], Bug="none")
-        conf = dict(NTasks=2, N=2, MaxOps=5, MaxRec=3, MaxT=0, MTypes=MT, Bug="none")
+        mc = dict(NTasks=2, N=3, MaxOps=7, MaxRec=3, MaxT=0, MTypes=["Cat", "Boom"], Kinds=["s", "a"], Bug="none")
+        conf = dict(NTasks=2, N=2, MaxOps=5, MaxRec=3, MaxT=0, MTypes=MT, Kinds=["s", "a"], Bug="none")
     else:
-        mc = dict(NTasks=3, N=3, MaxOps=8, MaxRec=4, MaxT=0, MTypes=["Cat", "Boom"], Bug="none")
-        conf = dict(NTasks=2, N=3, MaxOps=6, MaxRec=3, MaxT=0, MTypes=MT, Bug="none")
+        mc = dict(NTasks=3, N=3, MaxOps=8, MaxRec=4, MaxT=0, MTypes=["Cat", "Boom"], Kinds=["s", "a"], Bug="none")
+        conf = dict(NTasks=2, N=3, MaxOps=6, MaxRec=3, MaxT=0, MTypes=MT, Kinds=["s", "a"], Bug="none")
     rep.extra["constants"] = dict(model=mc, conformance=conf)
     leg_m(rep, work, SPEC, f"mc_{tier}", cfg_text(mc, spec="Spec", invariants=INVS, properties=PROPS),
           expect_actions=["Open", "Close", "RunCb", "Start", "Record", "Drain"], timeout=3000)
     if tier == "thorough":
-        small = dict(NTasks=2, N=2, MaxOps=5, MaxRec=2, MaxT=0, MTypes=["Cat"])
+        small = dict(NTasks=2, N=2, MaxOps=5, MaxRec=2, MaxT=0, MTypes=["Cat"], Kinds=["s", "a"])
         leg_mutant(rep, work, SPEC, "mutant_record_parent",
                    cfg_text(dict(small, Bug="record_parent"), spec="Spec", invariants=INVS, properties=PROPS),
                    ["Attribution"])
